@@ -293,5 +293,6 @@ func appendArrayElemIndent(ctx *encoder.RuntimeContext, code *encoder.Opcode, b 
 }
 
 func appendMapKeyIndent(ctx *encoder.RuntimeContext, code *encoder.Opcode, b []byte) []byte {
-	return appendIndent(ctx, b, code.Indent)
+	// a key stands one level below the map's own opening brace
+	return appendIndent(ctx, b, code.Indent+1)
 }
